@@ -259,7 +259,7 @@ impl Prop for C04 {
         vec!["tolerances of DESIGN 3.4 (twice tol for sums of independently rounded terms)".into()]
     }
     fn cases(tier: Tier) -> u32 {
-        tier.pick(3_000, 100_000)
+        tier.pick(3_000, 400_000)
     }
     fn strategy(tier: Tier) -> BoxedStrategy<Case> {
         (bf_case(params(tier), 50), area_s()).prop_map(|(base, area2)| Case { base, area2 }).boxed()
